@@ -1,1 +1,2 @@
-"""C11"""
+"""C11 -- proof part from the contracts tagged C11; bounded API-level keyword runs (model, generated parser, reused parser)."""
+from bounded.bC11 import run as bounded  # noqa: F401
